@@ -1,4 +1,5 @@
 import AdfObdd.Drv.Common
+import AdfObdd.Drv.DepsSet
 import AdfObdd.Spec.TT
 import AdfObdd.OpsModel
 import AdfObdd.CountsDef
@@ -85,6 +86,9 @@ def bddOpStep (b : BddSt) (l : String) (ws : List String) : List String × BddSt
     ([l, s!"= {r.2}", s!"~ {tt}"], { b with s := r.1, hist := b.hist.push r.2, tts := b.tts.push tt })
 
 def showDeps (xs : List Nat) : String := "[" ++ showNats "," (sortDedup xs) ++ "]"
+/-- `showDeps (depsOf s t)`; `depsSorted` is compiled to the memoised dependency set -/
+def showDepsOf (s : Store) (t : Nat) : String := "[" ++ showNats "," (depsSorted s t) ++ "]"
+theorem showDepsOf_eq (s : Store) (t : Nat) : showDepsOf s t = showDeps (depsOf s t) := rfl
 
 def bddQuery (b : BddSt) (w : String) : Option (String × String) := do
   let t ← b.h w
@@ -92,7 +96,7 @@ def bddQuery (b : BddSt) (w : String) : Option (String × String) := do
   let p := paths b.s t
   let c := countF b.s (t + 1) t
   let mm := if b.exception then "- -" else s!"{c.1} {c.2.1}"
-  let deps := showDeps (depsOf b.s t)
+  let deps := showDepsOf b.s t
   let eq := s!"paths {p.1} {p.2} pathsmemo {p.1} {p.2} models {c.1} {c.2.1} modelsmemo {mm} depth {c.2.2} deps {deps} more {boolBit (decide (c.2.1 ≥ c.1))}"
   -- sampled mode: no full truth tables (`nv` may be huge), the counts are compared with the model only
   if b.big.isSome then pure (eq, "skipped") else
